@@ -165,7 +165,7 @@ def shape(shape: t.Sequence[int]) -> Condition:
     """
     name = f"shape {tuple(shape)}"
     return Condition(
-        lambda v: v.shape == shape, name,
+        lambda v: tuple(v.shape) == tuple(shape), name,
         lambda exp, plural: f"{exp} with {name}"
     )
 
